@@ -50,16 +50,16 @@ type ObStat struct {
 }
 
 type Cex struct {
-	Tag     string
-	Entry   string
-	Table   map[string]interface{}
-	Note    string
+	Tag      string
+	Entry    string
+	Table    map[string]interface{}
+	Note     string
 	Implicit bool
 }
 
 type Witness struct {
 	Failed []string // assertions that fail on the whole path (expected to fail natively too)
-	Approx bool // the path condition contains float rounding variables (over-approximation): a native mismatch is not a translator bug
+	Approx bool     // the path condition contains float rounding variables (over-approximation): a native mismatch is not a translator bug
 	Entry  string
 	Table  map[string]interface{}
 	Obs    []string // predicted observations "tag=value"
@@ -607,9 +607,9 @@ func (m *M) knownValue(c *smt.Term) (bool, bool) {
 func (m *M) feasible(c *smt.Term) bool {
 	as := append(sliceFor(m.st.PC, c), c)
 	ch := m.chain(as)
-	r, _, _ := m.w.get(ch[0] + ":feas").Check(as, nil)
+	r, _, _ := m.w.get(ch[0]+":feas").Check(as, nil)
 	if r == smt.Unknown && len(ch) > 1 {
-		r, _, _ = m.w.get(ch[1] + ":feas").Check(as, nil)
+		r, _, _ = m.w.get(ch[1]+":feas").Check(as, nil)
 	}
 	return r != smt.Unsat
 }
@@ -1346,6 +1346,16 @@ func (m *M) nondetWants() []*smt.Term {
 
 func (m *M) tableFromModel(model smt.Model) map[string]interface{} {
 	tab := map[string]interface{}{}
+	if len(m.st.SchedTrace) > 0 {
+		var b strings.Builder
+		for i, t := range m.st.SchedTrace {
+			if i > 0 {
+				b.WriteByte(',')
+			}
+			fmt.Fprintf(&b, "%d", t)
+		}
+		tab["sched:trace"] = b.String()
+	}
 	i := 0
 	for _, n := range m.st.Nondets {
 		if n.T != nil {
